@@ -79,6 +79,10 @@ HEADER2_FIXTURES = ["hq_min", "hq_asym", "ld_min"]
 SLICE_FIXTURES = ["ld_min", "hq_tiny_lossless"]
 
 
+def precheck():
+    return dec.verify_fixtures(PROPERTY_ID)
+
+
 def tasks(tier, seed):
     rnd = random.Random(seed)
     idx = dec.fixture_index()
